@@ -73,10 +73,13 @@ CHECKS = {
     "C02": {
         "level": EXPL,
         "technique": "runtime monitoring: argument-checking recorder kernel (P-rec) at every operator callback, cross-checked by the exact polynomial kernel and the model's interaction multiset",
-        "claim": "On every explored execution every operator call received particles of the right leaf with unmodified data and original indices, distinct children of the stated parent with the true octant code, and sources at exactly the decoded relative offset, at the stated level; exploration over random trees, executors and orderings.",
+        "claim": "On every explored execution every operator call received particles of the right leaf with unmodified data and original indices, distinct children of the stated parent with the true octant code, and sources at exactly the decoded relative offset, at the stated level; exploration over random trees, orderings and executors (sequential, target/source, periodic top tree single and target/source, OpenMP and OpenMP target/source under shim schedules).",
         "note": "Trusted: address->cell map built by walking the tree before execution; Morton octant convention as documented. Held on executions explored only.",
-        "jobs": [{"bin": "h_fmm", "mode": "c02"}],
-        "rule": "cases = random trees (Dim 1..4, heights 1..8, all distributions incl. face/corner/nextafter points, random box geometry, block sizes, both modes, Morton and periodic-Morton orderings) executed with Checked<P-poly>; every callback is checked (header<->index, particles inside leaf, data bit-identical to input, child/parent relation by address, octant and relative-offset codes, level arguments, counts). non-trivial = at least one M2L or P2P call; distinct = (Dim,height,ordering,block size,mode,upper,N,occupancy hash).",
+        "jobs": [{"bin": "h_fmm", "mode": "c02"}, {"bin": "h_fmm", "mode": "c09"}, {"bin": "h_fmm", "mode": "c10"}, {"bin": "h_sched", "mode": "c03"}, {"bin": "h_sched", "mode": "c09"}, {"bin": "h_sched", "mode": "c10"}],
+        # the other engines run the same argument checker under their own key prefix; only its keys (and crashes) are C02's business there
+        "key_filter": ["^c02:", "^c(03|09|10):(hdr-|empty-particles|index-range|data-modified|particle-outside-leaf|child-|children-|count-arg|level-arg|rel-code|adjacency|separation|source-level|sources-|top-|unknown-object|wrong-object|hilbert:)",
+                       "^(asan|ubsan|lsan|tsan|memcheck|assert|glibcxx-assert|abort|signal|hang|exit):"],
+        "rule": "besides the h_fmm c02 cases, the argument checker runs inside the case sets of C09 (sequential target/source executor), C10 (periodic top tree, single and target/source), and h_sched C03 / C09 / C10 (OpenMP executors under shim schedules); only argument-check keys of those runs are judged here. h_fmm c02: cases = random trees (Dim 1..4, heights 1..8, all distributions incl. face/corner/nextafter points, random box geometry, block sizes, both modes, Morton and periodic-Morton orderings) executed with Checked<P-poly>; every callback is checked (header<->index, particles inside leaf, data bit-identical to input, child/parent relation by address, octant and relative-offset codes, level arguments, counts). non-trivial = at least one M2L or P2P call; distinct = (Dim,height,ordering,block size,mode,upper,N,occupancy hash).",
         "require_events": ["particles-checked", "elementary-interactions"],
         "assumptions": ["operator arguments are observed at the user-kernel boundary only"],
     },
@@ -175,10 +178,10 @@ CHECKS = {
     "C10": {
         "level": EXPL,
         "technique": "runtime monitoring: exact polynomial probe kernel (position-, level- and code-sensitive) against the explicit image sum over the interval the library reports; argument-checking recorder on the real tree and on the periodic top tree; counting kernel; pattern-initialised locals",
-        "claim": "For every explored input, extra-level count -1..5 and box, the documented four-call periodic sequence gave every particle exactly the sum over all particle images in the reported repetition cube (self excluded in the central box only), bit-exactly with a kernel whose value depends on the image displacement; the reported repetition count equalled the interval size.",
+        "claim": "For every explored input, extra-level count -1..5 and box, the documented four-call periodic sequence gave every particle exactly the sum over all particle images in the reported repetition cube (self excluded in the central box only), bit-exactly with a kernel whose value depends on the image displacement; the reported repetition count equalled the interval size. Held with the sequential executors and with the OpenMP executors (single and target/source) under shim schedules.",
         "note": "The set of images is pinned through a non-symmetric degree-3 polynomial kernel (degree 2 in Dim 4 is not used here), so a wrong window or a wrong displacement changes the value. Trusted: the lattice embedding of the harness and the closed-form image sum.",
-        "jobs": [{"bin": "h_fmm", "mode": "c10"}],
-        "rule": "case = random tree with periodic Morton ordering (Dim 1..3, heights 2..8, any centre/width incl. per-dimension widths, a third of the cases with particles on the box faces/corners), extra levels -1..5 (Dim 3: -1..3), run with Checked<P-poly> (every case), the counting kernel (every 3rd) or the target/source top tree (every 3rd). non-trivial = any; distinct = (input signature, extra levels).",
+        "jobs": [{"bin": "h_fmm", "mode": "c10"}, {"bin": "h_sched", "mode": "c10"}],
+        "rule": "h_sched: the same four-call sequence with TbfOpenmpAlgorithm / TbfOpenmpAlgorithmTsm as the executor around the top-tree step, each execute() under a fresh random shim schedule (policy, 1..8 threads), 2 (quick) or 4 (thorough) schedule sets per input, extra levels -1..2 (thorough -1..5). h_fmm: case = random tree with periodic Morton ordering (Dim 1..3, heights 2..8, any centre/width incl. per-dimension widths, a third of the cases with particles on the box faces/corners), extra levels -1..5 (Dim 3: -1..3), run with Checked<P-poly> (every case), the counting kernel (every 3rd) or the target/source top tree (every 3rd). non-trivial = any; distinct = (input signature, extra levels).",
         "require_events": ["periodic-runs", "counting-runs", "periodic-tsm-runs", "image-pairs-checked"],
         "assumptions": [],
     },
@@ -310,10 +313,10 @@ def run_c19(V, cid, tier, seed):
         results = list(ex.map(build_one, cells))
     for c, path, err in results:
         if path: built[c] = path; continue
-        m = re.search(r"(/repo/src/\S+?):(\d+):\d+: error: (.+)", err or "")
+        m = re.search(r"(" + re.escape(V.SRC) + r"/\S+?):(\d+):\d+: error: (.+)", err or "")
         if m:
             msg = re.sub(r"[\u2018\u2019']", "", m.group(3)); msg = re.sub(r"<.*", "", msg)[:70].strip()
-            key = "build:%s:%s" % (m.group(1).replace("/repo/src/", ""), msg)
+            key = "build:%s:%s" % (m.group(1).replace(V.SRC + "/", ""), msg)
             recs.append({"k": 0, "_mode": "c19", "_bin": _cell_name(c), "sig": "build:" + _cell_name(c), "nontrivial": True, "verdict": "violation",
                          "violations": [{"key": key, "detail": "configuration %s does not compile: %s:%s: %s" % (_cell_name(c), m.group(1), m.group(2), m.group(3)[:300])}],
                          "events": {}, "desc": "translation unit of configuration " + _cell_name(c), "_stderr": (err or "")[:6000]})
